@@ -3,6 +3,8 @@ import random
 import warnings
 from fractions import Fraction
 
+from props._util import same_num
+
 ID = 'C01'
 LEVEL = 'proof'
 CONTRACTS = ['contracts.explainer']
@@ -42,7 +44,7 @@ TECHNIQUE = "contract-based deductive verification: class invariant + loop invar
 DESIGN_REF = "DESIGN.md 5/C01"
 
 
-def _run_stream(dynamic, alpha, n_inner, names, seed, steps, strategy='joint', bigger=False):
+def _run_stream(dynamic, alpha, n_inner, names, seed, steps, strategy='joint', bigger=False, weak=False):
     import numpy as np
     from ixai.explainer import IncrementalSage
     from ixai.storage import UniformReservoirStorage, GeometricReservoirStorage
@@ -52,7 +54,8 @@ def _run_stream(dynamic, alpha, n_inner, names, seed, steps, strategy='joint', b
     np.random.seed(seed)
 
     def model(x):
-        s = sum(Fraction(v) * (i + 1) for i, v in enumerate(x.values()))
+        # weak: the last feature has a tiny (but non-zero) weight - the chain's last steps then change the loss only slightly
+        s = sum(Fraction(v) * (Fraction(1, 10 ** 6) if weak and i == len(x) - 1 else i + 1) for i, v in enumerate(x.values()))
         return {'p': s, 'q': Fraction(1) - s} if len(names) > 2 else {'output': s}
 
     def loss(y, p):
@@ -87,16 +90,17 @@ def BOUNDED(tier, seed):
     rng = random.Random(seed)
     if tier == 'quick':
         cfgs = rng.sample(cfgs, 24)
-    for (dynamic, alpha, n_inner, names, strategy) in cfgs:
+    cfgs = [c + (False,) for c in cfgs] + [(dyn, Fraction(1, 2), 1, ['a', 'b'], strat, True) for dyn in (False, True) for strat in ('joint', 'default')]
+    for (dynamic, alpha, n_inner, names, strategy, weak) in cfgs:
         try:
-            res = _run_stream(dynamic, alpha, n_inner, names, seed, 6 if tier == 'quick' else 12, strategy, bigger=(n_inner == 3))
+            res = _run_stream(dynamic, alpha, n_inner, names, seed, 6 if tier == 'quick' else 12, strategy, bigger=(n_inner == 3), weak=weak)
         except Exception as ex:   # noqa
             fails.append({'key': 'raised', 'summary': f'IncrementalSage run raised {ex!r} for dynamic={dynamic} alpha={alpha} n={n_inner} names={names}'})
             continue
         for t, tot, expl, diff in res:
             evals += 1
-            distinct.add((dynamic, str(alpha), n_inner, str(names), strategy, t))
-            if tot != expl or abs(float(expl) - float(diff)) > 1e-9 * (1 + abs(float(expl))):
+            distinct.add((dynamic, str(alpha), n_inner, str(names), strategy, weak, t))
+            if not same_num(tot, expl) or abs(float(expl) - float(diff)) > 1e-9 * (1 + abs(float(expl))):
                 fails.append({'key': 'efficiency', 'summary': f'sum of importances {tot} != explained loss {expl} after {t + 1} observations '
                               f'(dynamic={dynamic}, alpha={alpha}, n_inner={n_inner}, names={names}, imputer={strategy})',
                               'config': [dynamic, str(alpha), n_inner, [str(n) for n in names], strategy], 'observed': {'sum': str(tot), 'explained': str(expl)}})
